@@ -591,8 +591,8 @@ fn run_threads(c: &mut dyn Choices, ctx: &Ctx) -> Outcome {
   let _sub: Box<dyn std::any::Any + Send> = match op {
     0 => Box::new(src.buffer_with_time(ticks(1), sched).actual_subscribe(BufProbe(log.clone()))),
     1 => Box::new(src.buffer_with_count_and_time(count, ticks(1), sched).actual_subscribe(BufProbe(log.clone()))),
-    2 => Box::new(src.debounce(ticks(1), sched).actual_subscribe(TProbe { id: 0, log: log.clone(), cut: None, after_cut: None, clock: None, deliveries: None })),
-    _ => Box::new(src.throttle_time(ticks(1), ThrottleEdge::all(), sched).actual_subscribe(TProbe { id: 0, log: log.clone(), cut: None, after_cut: None, clock: None, deliveries: None })),
+    2 => Box::new(src.debounce(ticks(1), sched).actual_subscribe(TProbe { id: 0, log: log.clone(), cut: None, after_cut: None, clock: None, deliveries: None, nest: None })),
+    _ => Box::new(src.throttle_time(ticks(1), ThrottleEdge::all(), sched).actual_subscribe(TProbe { id: 0, log: log.clone(), cut: None, after_cut: None, clock: None, deliveries: None, nest: None })),
   };
   let producer: Box<dyn FnOnce() + Send> = {
     let mut s = w.hot[0].clone();
